@@ -309,6 +309,14 @@ def h_shapeop(ctx, op, shape, D, P, arg=None, cplx=False, operand='owned'):
     elif op == 'zeros':
         y = algopy.zeros(tuple(arg), dtype=x)
         f = None
+    elif op in ('zeros-npint', 'ones-npint'):
+        # the shape given as a numpy integer scalar (numpy.prod(...), a.shape product, numpy.int32)
+        n = int(arg[0])
+        y = (algopy.zeros if op.startswith('zeros') else algopy.ones)(np.int64(n), dtype=x)
+        y2 = (algopy.zeros if op.startswith('zeros') else algopy.ones)((np.int32(n),), dtype=x)
+        ctx.fact(tuple(y2.data.shape) == (D, P, n), '%s with a (numpy.int32,) tuple: shape %s' % (op, y2.data.shape))
+        op = 'zeros' if op.startswith('zeros') else 'ones'
+        f = None
     elif op == 'ones':
         y = algopy.ones(tuple(arg), dtype=x)
         f = None
@@ -467,6 +475,8 @@ def units(tier, seed):
             add('triu/%s/k=%d' % (shp, k), 'h_shapeop', op='triu', shape=shp, D=D, P=P, arg=k)
     for shp in [(2, 2), (3, 3), (5, 2), (2, 5), (4, 1), (3, 2)]:
         add('trace/%s' % (shp,), 'h_shapeop', op='trace', shape=shp, D=D, P=P)
+    add('zeros(numpy.int64(3), dtype=x)', 'h_shapeop', op='zeros-npint', shape=(2,), D=D, P=P, arg=(3,))
+    add('ones(numpy.int64(2), dtype=x)', 'h_shapeop', op='ones-npint', shape=(2,), D=D, P=P, arg=(2,))
     for tshape in [(2,), (2, 3), (1,)]:
         add('zeros(%s, dtype=x)' % (tshape,), 'h_shapeop', op='zeros', shape=(2,), D=D, P=P, arg=tshape)
         add('ones(%s, dtype=x)' % (tshape,), 'h_shapeop', op='ones', shape=(2,), D=D, P=P, arg=tshape)
